@@ -244,7 +244,11 @@ func dirName(isAsc bool) string {
 // ---- reset ------------------------------------------------------------------------------------
 
 func resetTable(bs []board) {
+	busyBefore := cache.Shm.Shm.BBusyState != 0
 	line := setTable(bs)
+	if busyBefore {
+		line += " busy"
+	}
 	t := cur
 	b2i := func(b bool) int {
 		if b {
@@ -252,8 +256,13 @@ func resetTable(bs []board) {
 		}
 		return 0
 	}
-	out := fmt.Sprintf("n=%d sorted=%d,%d", t.n, b2i(t.okSorted[0]), b2i(t.okSorted[1]))
+	busyAfter := cache.Shm.Shm.BBusyState != 0
+	out := fmt.Sprintf("n=%d sorted=%d,%d busy=%d resorted=%d", t.n, b2i(t.okSorted[0]), b2i(t.okSorted[1]), b2i(busyAfter),
+		b2i(t.okSorted[0] && t.okSorted[1]))
 	label := "reset:n=" + nbucket(t.n)
+	if busyBefore {
+		label += ":stale-busy-flag"
+	}
 	if t.vacated > 0 {
 		label += ":vacated"
 	}
@@ -267,12 +276,35 @@ func resetTable(bs []board) {
 		label += ":invalid-names"
 	}
 	i := op(line, out, label, false)
+	// the loaded table is the file that was written, whatever the busy flag said before (a stale flag can only be the
+	// leftover of a dead loader), and the flag is released afterwards
+	if d := t.diffWritten(bs); d != "" {
+		fail(i, "load:table", "after ReloadBCache (busy flag before: %v) the cache does not hold .BRD: %s", busyBefore, d)
+	}
+	if busyAfter {
+		fail(i, "load:busy-flag", "BBusyState is still set after ReloadBCache (before: %v): every lookup sleeps, SortBCache never sorts", busyBefore)
+	}
 	if !t.okSorted[0] {
 		fail(i, "sorted:byname", "BSorted[byName] = %v is not a sorted permutation of the %d boards", t.sorted[0], t.n)
 	}
 	if !t.okSorted[1] {
 		fail(i, "sorted:byclass", "BSorted[byClass] = %v is not a sorted permutation of the %d boards", t.sorted[1], t.n)
 	}
+}
+
+// diffWritten compares the loaded table with the boards written to .BRD.
+func (t *table) diffWritten(bs []board) string {
+	if t.n != len(bs) {
+		return fmt.Sprintf("%d boards loaded, %d written", t.n, len(bs))
+	}
+	for i, b := range bs {
+		nm := make([]byte, nameLen)
+		copy(nm, b.name)
+		if !bytes.Equal(nm, t.name[i]) || !bytes.Equal(b.title, t.title[i][:title8]) || b.grp != t.grp[i] || b.gid != t.gid[i] {
+			return fmt.Sprintf("slot %d holds %q, written %q", i+1, cstr(t.name[i]), cstr(nm))
+		}
+	}
+	return ""
 }
 
 // ---- (ii) GetBid --------------------------------------------------------------------------------
